@@ -23,7 +23,7 @@ cd $S || exit 2
 base_pass=$(grep -o 'PASS=[0-9]*' $S/.baseline | cut -d= -f2)
 rundemo() { # -> exit status of the demo run in $S
   rm -rf $S/_demo && mkdir $S/_demo
-  if [ -f $d/demo.c ]; then
+  if [ -f $d/demo.c ] && [ ! -f $d/demo.sh ]; then   # (a demo.sh drives its own helper sources)
     sed "s#${mention:-/nonexistent-mention}#$S#g" $d/demo.c > $S/_demo/demo.c
     gcc -Wall $S/_demo/demo.c -I$S/include -L$S/hwloc/.libs -lhwloc -lpthread -o $S/_demo/demo > $S/_demo/cc.log 2>&1 || { cat $S/_demo/cc.log | head -5; return 250; }
     ( cd $S && LD_LIBRARY_PATH=$S/hwloc/.libs timeout 300 $S/_demo/demo > $S/_demo/out.log 2>&1 ); return $?
